@@ -84,9 +84,11 @@ def directed(rng: random.Random) -> dict:
         return {"prog": body, "files": {}, "tables": {}, "rom": "low", "family": "directed:" + kind}
     if kind == "big_incbin":
         rom = rng.choice(["low", "high"])
-        n = rng.choice([0x8000, 0x8001, 0x12000, 0x21000]) if rom == "low" else rng.choice([0x10000, 0x10001, 0x21000])
+        n = rng.choice([0x8000, 0x8001, 0x12000, 0x21000, 0x3FFFC, 0x40000, 0x48123]) if rom == "low" else rng.choice([0x10000, 0x10001, 0x21000, 0x3FFFB, 0x40001, 0x50000])
         at = rng.choice([0x028000, 0x02FFF0]) if rom == "low" else rng.choice([0xC08000, 0xC0FFF0])
-        body = [{"k": "org", "e": E(at)}, {"k": "data", "d": "db", "es": [E(1)]}, {"k": "incbin", "f": "blob.bin"}] + tail + [{"k": "incbin", "f": "tail.bin"}, {"k": "label", "n": "after3"},
+        # (sometimes the block is assembled to run elsewhere in ROM: a quarter of a megabyte and more is still one run of bytes stored from `at` on)
+        moved = [{"k": "reloc", "e": E(0x108000 if rom == "low" else 0xD08000)}] if rng.random() < 0.4 else []
+        body = [{"k": "org", "e": E(at)}] + moved + [{"k": "data", "d": "db", "es": [E(1)]}, {"k": "incbin", "f": "blob.bin"}] + tail + [{"k": "incbin", "f": "tail.bin"}, {"k": "label", "n": "after3"},
                 {"k": "data", "d": "dl", "es": [E("blob_bin"), E("tail_bin"), E("after3")]}]
         return {"prog": body, "files": {"blob.bin": (rng.randbytes(1009) * (n // 1009 + 1))[:n], "tail.bin": b"xyz"}, "tables": {}, "rom": rom, "family": "directed:" + kind}
     if kind == "const_then_inner_label":
